@@ -39,6 +39,19 @@ class Prop(C02):
                 cases.append(R.gen_history(rng, rng.randint(5, 40), weights=w, deferral=True))
             else:
                 cases.append(R.gen_history(rng, rng.randint(5, 40), evpn=(k % 9 == 8), deferral=(k % 3 == 0), limits=(k % 4 == 1)))
+            if k % 5 == 2:
+                # the same table holds other families: the Restarting-Speaker deferral of ANOTHER family starts somewhere in
+                # the history and ends later (or never); next-hop flips, inserts and purges of the family under test in between
+                # must be reported as if it were not there
+                w = dict(ins=8, rem=3, drop=1, dropk=1, restale=2, nhv=6, reconnect=1, deferral=0)
+                c = R.gen_history(rng, rng.randint(6, 30), weights=w, deferral=False)
+                ops = list(c['ops'])
+                i = rng.randrange(0, max(1, len(ops) // 2))
+                ops.insert(i, ('odef', True))
+                if rng.random() < 0.7:
+                    ops.insert(rng.randrange(i + 1, len(ops) + 1), ('odef', False))
+                c['ops'] = ops
+                cases.append(c)
         return cases
 
     def corpus_cases(self):
